@@ -52,10 +52,15 @@ class Expr:
     """an expression outside domain rules (DERIVE initialiser, aggregate bound, constant value, statement of a function body,
     WHERE clause of a global RULE):  [fn(] refs…, literals… [)] [+ refs…]   — `refs` are bare identifiers"""
 
-    def __init__(self, label, fn=None, argc=0, refs=None):
+    def __init__(self, label, fn=None, argc=0, refs=None, args=None):
         self.label, self.fn, self.argc, self.refs, self.line = label, fn, argc, list(refs or []), 0
+        # explicit argument list of the call (then `refs` stand outside it): "L" literal, ("B", name) bare identifier, ("S", attr) SELF.attr
+        self.args = args
 
     def text(self):
+        if self.args is not None:
+            at = [str(i + 1) if a == "L" else (a[1] if a[0] == "B" else f"SELF.{a[1]}") for i, a in enumerate(self.args)]
+            return " + ".join([f"{self.fn}({', '.join(at)})"] + self.refs)
         rest = self.refs
         parts = []
         if self.fn:
@@ -68,7 +73,9 @@ class Expr:
 
     def proto(self, out):
         out.append(f"expr {self.label} {self.line}")
-        if self.fn:
+        if self.args is not None:
+            out.append(f"callwith {self.fn} " + (",".join("L" if a == "L" else f"{a[0]}:{a[1]}" for a in self.args) or "-"))
+        elif self.fn:
             out.append(f"call {self.fn} {self.argc}")
         for r in self.refs:
             out.append(f"bareattr {r}")
@@ -541,6 +548,9 @@ def render_into(s, out, proto):
                 elif r.kind == "bare":
                     emit(f"  {r.label} : {r.kw['attr']} > 0;")
                     proto.append(f"bareattr {r.kw['attr']}")
+                elif r.kind == "dot":
+                    emit(f"  {r.label} : SELF.{r.kw['attr']}{'[1]' if r.kw.get('indexed') else ''}.{r.kw['field']} > 0;")
+                    proto.append(f"dot {r.kw['attr']} {r.kw['field']} {1 if r.kw.get('indexed') else 0}")
                 elif r.kind == "badgroup":
                     emit(f"  {r.label} : SELF.{r.kw['attr']}\\{r.kw['ent']}.{r.kw['sub']} > 0;")
                     proto.append(f"badgroup {r.kw['sub']}")
@@ -1370,6 +1380,197 @@ def make_undef_ref_in(ctx):
     return m
 
 
+# ---- `operand.field` on operands of every type kind (EXPresolve_op_dot)
+def _fresh_enum(s, rng, tag):
+    t = TypeDecl(f"xen_{tag}{rng.randint(0, 99)}", "enum", [f"xit_{tag}_{j}" for j in range(rng.randint(1, 3))])
+    s.decls.append(t)
+    return t.name
+
+
+def _enum_only_select(s, rng, tag, depth=1):
+    """a select all of whose leaves are enumerations (nested `depth` levels)"""
+    items = [_fresh_enum(s, rng, f"{tag}{k}") for k in range(rng.randint(1, 2))]
+    if depth > 1:
+        items.insert(rng.randint(0, len(items)), _enum_only_select(s, rng, tag + "n", depth - 1))
+    t = TypeDecl(f"xse_{tag}{rng.randint(0, 99)}", "select", items)
+    s.decls.append(t)
+    return t.name
+
+
+DOT_SHAPES = ["entity", "select_entities", "select_selects", "select_enums_last", "select_enums_first", "select_enums_mid",
+              "select_enum_and_entity", "select_nested3", "select_renamed", "select_with_simple", "enumeration", "enumeration_renamed",
+              "aggregate", "aggregate_renamed", "simple", "simple_renamed", "indexed_entity", "indexed_select"]
+
+
+def make_undef_dot(shape):
+    """`SELF.a.nosuch` with `a` of the given type shape; the select shapes have at least one leaf that is not an enumeration, in
+    every position relative to enumeration-only sub-selects"""
+    def m(s, rng):
+        ents = s.entities()
+        if not ents:
+            return None
+        host = rng.choice(ents)
+        tgt = rng.choice(ents)
+        nm = f"nosuch_d{rng.randint(0, 99)}"
+        indexed = False
+        ent_items = [x.name for x in rng.sample(ents, min(len(ents), rng.randint(1, 2)))]
+        tag = shape[:2] + str(rng.randint(0, 9))
+
+        def sel(items):
+            t = TypeDecl(f"xsl_{tag}{len(s.decls)}", "select", items)
+            s.decls.append(t)
+            return t.name
+
+        if shape in ("entity", "indexed_entity"):
+            ty, expect = ("N", tgt.name), ("UNKNOWN_ATTR_IN_ENTITY", [nm, tgt.name])
+        elif shape == "enumeration":
+            en = _fresh_enum(s, rng, tag)
+            ty, expect = ("N", en), ("ENUM_NO_SUCH_ITEM", [en, nm])
+        elif shape == "enumeration_renamed":
+            en = _fresh_enum(s, rng, tag)
+            t2 = TypeDecl(f"xrn_{tag}", "ref", ("N", en)); s.decls.append(t2)
+            ty, expect = ("N", t2.name), ("ENUM_NO_SUCH_ITEM", [t2.name, nm])
+        elif shape == "aggregate":
+            ty, expect = ("A", rng.choice(["LIST [0:?] OF", "SET [1:?] OF", "BAG OF", "ARRAY [1:3] OF"]), ("N", tgt.name)), ("ATTRIBUTE_REF_ON_AGGREGATE", [nm])
+        elif shape == "aggregate_renamed":
+            t2 = TypeDecl(f"xag_{tag}", "ref", ("A", "LIST [0:?] OF", ("N", tgt.name))); s.decls.append(t2)
+            ty, expect = ("N", t2.name), ("ATTRIBUTE_REF_ON_AGGREGATE", [nm])
+        elif shape == "simple":
+            ty, expect = ("S", rng.choice(SIMPLE)), ("ATTRIBUTE_REF_FROM_NON_ENTITY", [nm])
+        elif shape == "simple_renamed":
+            t2 = TypeDecl(f"xsi_{tag}", "ref", ("S", rng.choice(SIMPLE))); s.decls.append(t2)
+            ty, expect = ("N", t2.name), ("ATTRIBUTE_REF_FROM_NON_ENTITY", [nm])
+        else:
+            expect = ("UNDEFINED_ATTR", [nm])
+            if shape in ("select_entities", "indexed_select"):
+                items = ent_items
+            elif shape == "select_selects":
+                items = [sel(ent_items), sel([rng.choice(ents).name])]
+            elif shape == "select_enums_last":
+                items = ent_items + [_enum_only_select(s, rng, tag)]
+            elif shape == "select_enums_first":
+                items = [_enum_only_select(s, rng, tag)] + ent_items
+            elif shape == "select_enums_mid":
+                items = [ent_items[0], _enum_only_select(s, rng, tag), rng.choice(ents).name]
+                items = list(dict.fromkeys(items))
+                if items[-1] == items[0] or len(items) < 3:
+                    items = [ent_items[0], _enum_only_select(s, rng, tag + "b"), sel([rng.choice(ents).name])]
+            elif shape == "select_enum_and_entity":
+                items = ent_items[:1] + [_fresh_enum(s, rng, tag)]
+                rng.shuffle(items)
+            elif shape == "select_nested3":
+                inner = sel(ent_items[:1])
+                mid = [inner, _enum_only_select(s, rng, tag, depth=2)]
+                rng.shuffle(mid)
+                items = [_enum_only_select(s, rng, tag + "o"), sel(mid), _enum_only_select(s, rng, tag + "p")]
+                k = rng.randrange(3)
+                items = items[k:] + items[:k]
+            elif shape == "select_renamed":
+                t2 = TypeDecl(f"xrs_{tag}", "ref", ("N", sel(ent_items + [_enum_only_select(s, rng, tag)]))); s.decls.append(t2)
+                items = None
+                ty = ("N", t2.name)
+            elif shape == "select_with_simple":
+                t2 = TypeDecl(f"xsi_{tag}", "ref", ("S", "INTEGER")); s.decls.append(t2)
+                items = [_enum_only_select(s, rng, tag), t2.name]
+                rng.shuffle(items)
+            if items is not None:
+                ty = ("N", sel(items))
+        if shape.startswith("indexed"):
+            ty, indexed = ("A", "LIST [0:?] OF", ty), True
+        a = Attr(f"xd_{host.name}_{len(host.attrs)}", ty)
+        host.attrs.insert(len([x for x in host.attrs if x.inverse_for is None]), a)
+        r = Rule(f"wr{len(host.rules)}", "dot", attr=a.name, field=nm, indexed=indexed)
+        host.rules.append(r)
+        return Fault("undefined-attribute", s, [expect], note=f"SELF.{a.name}{'[1]' if indexed else ''}.{nm}, operand {shape}: {ty_text(ty)}")
+    return m
+
+
+def m_dot_select_all_enums(s, rng):
+    """`SELF.a.nosuch` where every member of a's select type is an enumeration: only the (default-silent) CASE_SKIP_LABEL warning"""
+    ents = s.entities()
+    if not ents:
+        return None
+    host = rng.choice(ents)
+    items = [_fresh_enum(s, rng, f"ae{k}") for k in range(rng.randint(1, 3))]
+    t = TypeDecl(f"xae_{rng.randint(0, 99)}", "select", items); s.decls.append(t)
+    a = Attr(f"xd_{host.name}_{len(host.attrs)}", ("N", t.name))
+    host.attrs.insert(len([x for x in host.attrs if x.inverse_for is None]), a)
+    nm = f"nosuch_d{rng.randint(0, 99)}"
+    host.rules.append(Rule(f"wr{len(host.rules)}", "dot", attr=a.name, field=nm, indexed=False))
+    return Fault("enumeration-only-select", s, [("CASE_SKIP_LABEL", [nm])], verdict="accept", warn=True)
+
+
+def m_dot_valid(s, rng):
+    """`SELF.a.f` that resolves: a of entity type (f own / inherited / declared by a subtype), or of a select over entities"""
+    ents = s.entities()
+    c = [(x, a) for x in ents for a in x.attrs if a.inverse_for is None and a.redecl_of is None]
+    if not c:
+        return None
+    tgt, f = rng.choice(c)
+    host = rng.choice(ents)
+    if rng.random() < 0.5:
+        ty = ("N", tgt.name)
+    else:
+        items = list(dict.fromkeys([tgt.name] + [x.name for x in rng.sample(ents, min(len(ents), 2))]))
+        rng.shuffle(items)
+        t = TypeDecl(f"xvs_{rng.randint(0, 99)}", "select", items); s.decls.append(t)
+        ty = ("N", t.name)
+    a = Attr(f"xd_{host.name}_{len(host.attrs)}", ty)
+    host.attrs.insert(len([x for x in host.attrs if x.inverse_for is None]), a)
+    host.rules.append(Rule(f"wr{len(host.rules)}", "dot", attr=a.name, field=f.name, indexed=False))
+    return Fault("valid", s, [], verdict="accept", note=f"SELF.{a.name}.{f.name} resolves ({ty_text(ty)})")
+
+
+# ---- calls whose arguments fail to resolve, at every position, with the right and with a wrong number of arguments
+def make_call_args(n_undef, wrong):
+    def m(s, rng):
+        funcs = [f for f in s.funcs() if f.kind == "function"]
+        ents = s.entities()
+        if not funcs or not ents:
+            return None
+        f = rng.choice(funcs)
+        host = rng.choice(ents)
+        ints = int_attrs_visible(s, host)
+        n = f.nparams
+        if wrong:
+            n = rng.choice([x for x in (f.nparams - 1, f.nparams + 1, f.nparams + 2) if x >= max(1, n_undef)])
+        n = max(n, n_undef)
+        if n == f.nparams and wrong:
+            n += 1
+        pos = sorted(rng.sample(range(n), n_undef))
+        args = []
+        for i in range(n):
+            if i in pos:
+                args.append(("B", f"nosuch_a{i}_{rng.randint(0, 99)}"))
+            elif ints and rng.random() < 0.6:
+                args.append(("B", rng.choice(ints)))
+            else:
+                args.append("L")
+        ctx = rng.choice(["derive", "function"] if n_undef == 0 or True else ["derive"])
+        if ctx == "function":
+            g = rng.choice(funcs)
+            if not g.locals_:
+                g.locals_ = ["v0"]
+            args = [a if a == "L" or a[1].startswith("nosuch") else ("B", rng.choice(g.scope_names())) for a in args]
+            g.body.append(Expr(f"s{len(g.body)}", f.name, 0, [], args=args))
+            where = f"body of FUNCTION {g.name}"
+        else:
+            a = Attr(f"d_{host.name}_c{len(host.derives)}", ("S", "INTEGER"))
+            a.expr = Expr(a.name, f.name, 0, [], args=args)
+            host.derives.append(a)
+            where = f"DERIVE initialiser in ENTITY {host.name}"
+        expect = []
+        if pos:
+            expect.append(("UNDEFINED", [args[pos[0]][1]]))          # only the first failing argument is reported
+        if n != f.nparams:
+            expect.append(("WRONG_ARG_COUNT", [f.name, str(n), str(f.nparams)]))
+        if not pos:
+            return Fault("wrong-argument-count", s, expect, verdict="accept", warn=True, note=where)
+        return Fault("undefined-reference", s, expect, note=f"{where}: {f.name} has {f.nparams} parameter(s), called with {n}, "
+                                                             f"undefined argument(s) at position(s) {[p + 1 for p in pos]}")
+    return m
+
+
 def m_missing_super_after_good(s, rng):
     """the offending subtype stands AFTER a subtype that does list the supertype (the `found` flag of
     ENTITYcheck_missing_supertypes is per subtype): p SUPERTYPE OF (ONEOF (good…, x)) with x not naming p"""
@@ -1398,6 +1599,14 @@ def m_missing_super_after_good(s, rng):
 
 
 MUTATORS["missing_super_after_good"] = m_missing_super_after_good
+for _sh in DOT_SHAPES:
+    MUTATORS[f"undef_dot_{_sh}"] = make_undef_dot(_sh)
+MUTATORS["dot_select_all_enums"] = m_dot_select_all_enums
+MUTATORS["dot_valid"] = m_dot_valid
+for _k in (1, 2, 3):
+    for _w in (False, True):
+        MUTATORS[f"call_args_undef{_k}_{'wrong' if _w else 'right'}"] = make_call_args(_k, _w)
+MUTATORS["call_args_wrong_count"] = make_call_args(0, True)
 
 for _c in EXPR_CONTEXTS:
     MUTATORS[f"undef_func_in_{_c}"] = make_undef_func_in(_c)
